@@ -181,7 +181,31 @@ func runC18Changes(tier string, seed uint64, idx int) core.Result {
 			if rng.IntN(4) == 0 {
 				st.Shards = []uint32{1, 2, 3, 5, 7, 16, 64}[rng.IntN(7)]
 			}
-			cfg.Namespaces = append(cfg.Namespaces, model.NamespaceConfig{Name: name, InitialShardCount: st.Shards, ReplicationFactor: st.RF})
+			// at a random position: a change can then hold a namespace that is accepted in front of one that is refused
+			at := rng.IntN(len(cfg.Namespaces) + 1)
+			nsl := append([]model.NamespaceConfig{}, cfg.Namespaces[:at]...)
+			nsl = append(nsl, model.NamespaceConfig{Name: name, InitialShardCount: st.Shards, ReplicationFactor: st.RF})
+			cfg.Namespaces = append(nsl, cfg.Namespaces[at:]...)
+			// sometimes a second namespace comes with the same change
+			if rng.IntN(3) == 0 {
+				for _, n2 := range names {
+					present2 := n2 == name
+					for _, n := range cfg.Namespaces {
+						if n.Name == n2 {
+							present2 = true
+						}
+					}
+					if !present2 {
+						at2 := rng.IntN(len(cfg.Namespaces) + 1)
+						nsl2 := append([]model.NamespaceConfig{}, cfg.Namespaces[:at2]...)
+						nsl2 = append(nsl2, model.NamespaceConfig{Name: n2, InitialShardCount: 1 + rng.Uint32N(8), ReplicationFactor: 1 + rng.Uint32N(4)})
+						cfg.Namespaces = append(nsl2, cfg.Namespaces[at2:]...)
+						st.Op = "add-2-ns"
+						st.NS = name + "+" + n2
+						break
+					}
+				}
+			}
 			if step > 0 {
 				addedLater = true
 			}
